@@ -56,7 +56,7 @@ def run(tier):
     wd = common.workdir("c01")
     models(ck, tier)
     ncase = 90 if tier == "quick" else 700
-    scripts = []; meta = []
+    scripts = []; meta = []; nowrite = []
     for i in range(ncase):
         D, cfg, seg, fdmode, cls = writer_case(rnd, i, wd, tier)
         cid = "w%d" % i
@@ -72,6 +72,12 @@ def run(tier):
             if cfg.get("manual") and rnd.random() < 0.3:
                 lines.append("end_chunk 0"); cuts.append(pos)
         lines += ["close 0", "free 0", "closefd 0"]
+        if i % 5 == 0:
+            # the same writes as a header-only run (ZCK_NO_WRITE): nothing reaches the output, the header is computed in memory
+            nw = out + ".nowrite"; nwh = out + ".nowrite.hdr"
+            lines += ["echo nowrite", "ctx 2", "open 2 %s rwt" % nw, "init_write 2 2"] + [l.replace(" 0 ", " 2 ", 1) for l in writegen.cfg_lines(cfg, 0, wd, cid)] + ["ioption 2 5 1"]
+            lines += [l.replace("write 0 ", "write 2 ").replace("end_chunk 0", "end_chunk 2") for l in lines if l.startswith("write 0 ") or l == "end_chunk 0"]
+            lines += ["close 2", "dump_header 2 %s" % nwh, "free 2", "closefd 2"]
         # read back under several buffer-size sequences
         styles = rnd.sample(["one", "seven", "mix", "blk", "big"], 2 if tier == "quick" else 4)
         sinks = []
@@ -110,7 +116,7 @@ def run(tier):
         ce = bycase.get(cid, [])
         trace.append({"op": "wstart", "case": cid, "cfg": {k: (v if not isinstance(v, bytes) else v.hex()) for k, v in cfg.items()}, "len": len(D), "cls": cls, "fd": fdmode}); owner.append(cid)
         accepted = 0; rb = None; acc_cuts = []
-        phase = "w"
+        phase = "w"; nw_ret = 0
         for e in ce:
             op = e["op"]
             if op in ("Crash", "Hang"):
@@ -137,8 +143,21 @@ def run(tier):
                          "total": len(rf.content) if rf.content is not None else -1, "cutsOk": all(c in ends or c == 0 for c in acc_cuts)}
                     trace.append({"op": "wclose", "ret": e["ret"], "f": f}); owner.append(cid)
                     phase = "r"
+            elif phase == "n":
+                # the header-only twin: judged apart (beyond the listed properties: specification drift, not a violation)
+                if op == "close": nw_ret = e["ret"]
+                elif op == "dump_header":
+                    real = open(out, "rb").read() if os.path.exists(out) else b""
+                    hreal = ref.parse_header(real)
+                    hdr = open(out + ".nowrite.hdr", "rb").read() if os.path.exists(out + ".nowrite.hdr") else b""
+                    nowrite.append({"op": "wstart", "case": cid + " (ZCK_NO_WRITE twin)"})
+                    nowrite.append({"op": "nowrite", "ret": nw_ret, "hdrEq": bool(hreal.ok and hdr == real[:hreal.hdr_total]),
+                                    "outEmpty": os.path.exists(out + ".nowrite") and os.path.getsize(out + ".nowrite") == 0})
+                    phase = "r"
             else:
-                if op == "echo":
+                if op == "echo" and e.get("s") == "nowrite":
+                    phase = "n"; nw_ret = 0
+                elif op == "echo":
                     if rb: 
                         trace.append(rb); owner.append(cid)
                     rb = {"op": "readback", "openRet": 0, "valRet": 0, "delivered": 0, "eq": True, "closeRet": 0, "_sink": sinks[len([t for t, o in zip(trace, owner) if o == cid and t["op"] == "readback"])]}
@@ -160,6 +179,14 @@ def run(tier):
             trace.append({"op": "Crash", "why": "case did not finish"}); owner.append(cid)
         ck.case((cls, len(D), json.dumps({k: (v.hex() if isinstance(v, bytes) else v) for k, v in cfg.items()}, sort_keys=True), len(seg), fdmode))
     ck.sample({"case": meta[0][0], "trace": [t for t, o in zip(trace, owner) if o == meta[0][0]][:12]})
+    # the header-only twins against WNoWrite: a rejection is recorded as specification drift
+    if nowrite:
+        pnw = os.path.join(wd, "nowrite.ndjson"); common.write_ndjson(pnw, nowrite)
+        okn, resn = common.validate_trace("Trace_Writer", "Trace_Writer.cfg", pnw); ck.add_tlc("Trace_Writer (ZCK_NO_WRITE twins)", resn)
+        ck.extra["nowrite_twins"] = len(nowrite) // 2
+        ck.extra["nowrite_contract_deviation"] = (not okn)
+        if not okn:
+            ck.notes.append("a ZCK_NO_WRITE run did not compute the header of the real run, or wrote to its output (beyond the listed properties)")
     # ---------------- tools end to end
     tool_cases(ck, rnd, tier, bd, wd, trace, owner)
     validate_segments(ck, "C01", trace, owner, wd, scripts_by={m[0]: (scripts[i], "writer %s" % m[0], [os.path.join(wd, m[0] + ".in")]) for i, m in enumerate(meta)},
